@@ -87,6 +87,12 @@ def Sel.captures : Sel → List El | .mk _ _ c _ _ => c
 def Sel.children : Sel → List Sel | .mk _ _ _ c _ => c
 def Sel.immediate : Sel → Bool | .mk _ _ _ _ i => i
 
+/-- first character test, kernel-reducible (`str.startswith` with a one-character prefix) -/
+def startsWithChar (s : String) (c : Char) : Bool :=
+  match s.toList with
+  | c' :: _ => c' == c
+  | [] => false
+
 mutual
 def Sel.focus : Sel → Bool
   | .mk _ _ caps ch _ => caps.any (·.focus) || focusList ch
@@ -105,7 +111,7 @@ end
 
 mutual
 def Sel.allCaptures : Sel → List String
-  | .mk _ _ caps ch _ => (caps.filter (fun e => !e.capture.startsWith "/")).map (·.capture) ++ allCapturesList ch
+  | .mk _ _ caps ch _ => (caps.filter (fun e => !startsWithChar e.capture '/')).map (·.capture) ++ allCapturesList ch
 def allCapturesList : List Sel → List String
   | [] => []
   | s :: rest => s.allCaptures ++ allCapturesList rest
@@ -119,7 +125,8 @@ structure FnInfo where
 
 def FnInfo.hasVar (f : FnInfo) (n : String) : Bool := f.vars.any (·.1 == n)
 
-def baseName (n : String) : String := (n.splitOn ".").headD n
+/-- `name.split(".")[0]` -/
+def baseName (n : String) : String := String.ofList (n.toList.takeWhile (· != '.'))
 
 /-- `fits_selector`: `none` = False, `some capmap` = list of (element, variable names) -/
 def fitsSelector (fnId : Nat) (info : FnInfo) (sel : Sel) : Option (List (El × List String)) :=
@@ -135,7 +142,7 @@ def fitsSelector (fnId : Nat) (info : FnInfo) (sel : Sel) : Option (List (El × 
         if names.isEmpty then Option.none
         else go rest (if acc.any (·.1 == cap) then acc else (cap, names) :: acc)
       | some n =>
-        if !n.startsWith "#" && !info.hasVar (baseName n) then Option.none
+        if !startsWithChar n '#' && !info.hasVar (baseName n) then Option.none
         else go rest (if acc.any (·.1 == cap) then acc else (cap, [n]) :: acc)
   go sel.captures []
 
@@ -278,33 +285,41 @@ def Interactor.add (it : Interactor) (v : String) (e : El) (a : Nat) : Interacto
     { it with accs := it.accs.map fun (k, l) => if k == v then (k, l ++ [(e, a)]) else (k, l) }
   else { it with accs := it.accs ++ [(v, [(e, a)])] }
 
+/-- `acc.close` is truthy: only `Total` accumulators are closed at exit -/
+def canCloseAcc (handlers : Array Handler) (heap : Heap) (a : Nat) : Bool :=
+  match heap[a]? with
+  | some acc => (match handlers[acc.handler]? with | some h => h.kind == .total | Option.none => false)
+  | Option.none => false
+
+/-- the registration part of `Interactor.register` -/
+def Interactor.addAll (it : Interactor) (a : Nat) (capmap : List (El × List String)) : Interactor :=
+  capmap.foldl (fun it (p : El × List String) => p.2.foldl (fun it v => it.add v p.1 a) it) it
+
 /-- `Interactor.register` -/
 def Interactor.register (it : Interactor) (handlers : Array Handler) (heap : Heap) (a : Nat)
     (capmap : List (El × List String)) (closeAtExit : Bool) : Interactor :=
-  let it := capmap.foldl (fun it (e, vs) => vs.foldl (fun it v => it.add v e a) it) it
-  let canClose := match heap[a]? with
-    | some acc => (match handlers[acc.handler]? with | some h => h.kind == .total | Option.none => false)
-    | Option.none => false
-  if closeAtExit && canClose then { it with toClose := it.toClose ++ [a] } else it
+  if closeAtExit && canCloseAcc handlers heap a then
+    { it.addAll a capmap with toClose := (it.addAll a capmap).toClose ++ [a] }
+  else it.addAll a capmap
 
 abbrev Coll := List (Sel × Nat)
+
+/-- the body of the loop of `HandlerCollection.proceed` for one pending pair -/
+def proceedStep (handlers : Array Handler) (info : FnInfo) (fnId : Nat)
+    (st : Interactor × Coll × Heap) (pair : Sel × Nat) : Interactor × Coll × Heap :=
+  let keep : Coll := if !pair.1.immediate then [pair] else []
+  match fitsSelector fnId info pair.1 with
+  | Option.none => (st.1, st.2.1 ++ keep, st.2.2)
+  | some capmap =>
+    let isTemplate := (st.2.2[pair.2]?.map (·.template)).getD false
+    let fk := if pair.1.focus || isTemplate then fork st.2.2 pair.2 Option.none else (st.2.2, pair.2)
+    let it := st.1.register handlers fk.1 fk.2 capmap isTemplate
+    (it, st.2.1 ++ keep ++ pair.1.children.map (fun c => (c, fk.2)), fk.1)
 
 /-- `HandlerCollection.proceed` -/
 def proceedEnter (handlers : Array Handler) (infos : Array FnInfo) (fnId : Nat) (coll : Coll) (heap : Heap) :
     Interactor × Coll × Heap :=
-  let info := infos.getD fnId default
-  coll.foldl (fun (st : Interactor × Coll × Heap) (pair : Sel × Nat) =>
-    let (it, next, heap) := st
-    let (sel, a) := pair
-    let next := if !sel.immediate then next ++ [(sel, a)] else next
-    match fitsSelector fnId info sel with
-    | Option.none => (it, next, heap)
-    | some capmap =>
-      let isTemplate := (heap[a]?.map (·.template)).getD false
-      let (heap, a') := if sel.focus || isTemplate then fork heap a Option.none else (heap, a)
-      let it := it.register handlers heap a' capmap isTemplate
-      let next := next ++ sel.children.map fun c => (c, a')
-      (it, next, heap)) ({ fn := fnId }, [], heap)
+  coll.foldl (proceedStep handlers (infos.getD fnId default) fnId) ({ fn := fnId }, [], heap)
 
 def setCapture (heap : Heap) (a : Nat) (k : String) (c : Capture) : Heap :=
   heap.modify a fun acc => { acc with captures := dictSet acc.captures k c }
